@@ -135,7 +135,8 @@ Mixed == << D("(1 day + 1 ns)", MAdd(UM("day"), UM("ns")), "approx"),
             D("(1 s - 1 ns)", MSub(UM("s"), UM("ns")), "approx"),
             D("(1 h + 0.5 s)", MAdd(UM("h"), MHalf(UM("s"))), "exact"),
             D("(1 week + 1 us)", MAdd(UM("week"), UM("us")), "approx"),
-            D("(1 s - 1 s)", ZeroM, "exact") >>
+            D("(1 s - 1 s)", ZeroM, "exact"),
+            D("0 s", ZeroM, "exact") >>
 
 \* every magnitude with both signs
 Signed(mags) == [i \in 1..(2 * Len(mags)) |->
